@@ -166,7 +166,7 @@ func run(a *Args) error {
 	// contract-free oracle (acceptance rule, what is performed, what the plugin is asked, truthful results) on ALL inputs
 	prelude := "From NV Require Import Base Regex Generated C02_Levels VerifyCore C02_Model C02_Struct C02_Versions.\nOpen Scope string_scope.\n"
 	w := NewCaseWriter(a, "C02", prelude, "case", "run_all")
-	w.Rule = "scenarios realised on the real verifier.Verify. Family table: every enforcement map reachable from {strict,permissive,audit} x legal overrides (24 maps, a random (level, override) representative each) x every subset of simultaneously failing native validations {trust store authenticity, identity, expiry, certificate time, revocation} (quick) resp. the full product {anchor found, load error, not anchored} x identity x expired x certificate time x revocation {ok, revoked, unknown, validator error} (thorough) x plugin situation {none, not installed, version too low, no verification capability, trusted-identity, revocation, both} x verdicts {success, failure, missing} x critical attributes {none, processed, unprocessed}; the cells that differ only in the map form a group on which monotonicity of acceptance is checked directly. Family random: malformed plugin headers, blank names, missing manager, metadata error, invalid versions, capability orders with foreign capabilities, plugin errors, nil verdict entries, non-critical attributes, integer-labelled critical attributes (COSE), corrupted envelopes, both envelope formats. Family versions: (plugin version, demanded minimum) pairs around SemVer precedence. Family corpus: the fixed defects and the known finding. Family illegal: level/override combinations GetVerificationLevel must refuse. Family duplicates: a verification capability declared several times (outside wf_sc; judged by the contract-free oracle spec_all). Family revshape: validator answers with a result too few / too many / a nil entry (fix d78db00) under enforce, log, skip and with a revocation plugin. Family revchain: the bad / non-revokable revocation status sits on the intermediate or root certificate (the verdict depends on every certificate of the chain). non-trivial = at least one failed validation or a plugin header / extended attribute present; distinct = distinct scenario tuples"
+	w.Rule = "scenarios realised on the real verifier.Verify. Family table: every enforcement map reachable from {strict,permissive,audit} x legal overrides (24 maps, a random (level, override) representative each) x every subset of simultaneously failing native validations {trust store authenticity, identity, expiry, certificate time, revocation} (quick) resp. the full product {anchor found, load error, not anchored} x identity x expired x certificate time x revocation {ok, revoked, unknown, validator error} (thorough) x plugin situation {none, not installed, version too low, no verification capability, trusted-identity, revocation, both} x verdicts {success, failure, missing} x critical attributes {none, processed, unprocessed}; the cells that differ only in the map form a group on which monotonicity of acceptance is checked directly. Family random: malformed plugin headers, blank names, missing manager, metadata error, invalid versions, capability orders with foreign capabilities, plugin errors, nil verdict entries, non-critical attributes, integer-labelled critical attributes (COSE), corrupted envelopes, both envelope formats. Family versions: (plugin version, demanded minimum) pairs around SemVer precedence. Family corpus: the fixed defects and the known finding. Family illegal: level/override combinations GetVerificationLevel must refuse. Family duplicates: a verification capability declared several times (outside wf_sc; judged by the contract-free oracle spec_all). Family revshape: validator answers with a result too few / too many / a nil entry (fix d78db00) under enforce, log, skip and with a revocation plugin. Family revchain: the bad / non-revokable revocation status sits on the intermediate or root certificate (the verdict depends on every certificate of the chain). Family uspace: plugin name / minimum version made of or containing Unicode white space. non-trivial = at least one failed validation or a plugin header / extended attribute present; distinct = distinct scenario tuples"
 	w.Assumptions = []string{
 		"plugin metadata lists each verification capability at most once (wf_sc): needed only for the clause 'each result type at most once, in the fixed order'; the acceptance rule, monotonicity, what is performed / asked and the truthfulness of the results are proved and checked without it (families random and duplicates)",
 		"validity and order of the plugin version / demanded minimum are computed inside Coq from the version strings by C20's model of internal/semver.IsValid and x/mod/semver.Compare (C02_Versions.plugin_of, minver_valid_of); family versions holds the pairs around SemVer precedence",
@@ -1421,6 +1421,28 @@ func run(a *Args) error {
 			s := base("revchain", l)
 			s.RevMode = rm
 			exec(s, nil)
+		}
+	}
+
+	// 12. Unicode white space: strings.TrimSpace(name) == "" also holds for names made of U+0085, U+00A0,
+	// U+2028, U+3000 ... (found by the GoLite equivalence of getVerificationPlugin: the model's [blank] was
+	// ASCII-only); a name that merely contains such characters is an ordinary plugin name
+	for _, l := range []lv{{name: "strict"}, {name: "audit"}} {
+		for _, nm := range []string{"\u00a0", "\u3000\u2028 ", "\u0085\t", "\u00a0plug\u00a0", "\u2003x"} {
+			nm := nm
+			func() {
+				defer func() {
+					if r := recover(); r != nil {
+						w.Count("uspace_not_realisable", fmt.Sprint(r)[:40])
+					}
+				}()
+				s := plugScen("uspace", l, "TI")
+				s.Plugin.Val = nm
+				exec(s, nil)
+				s2 := plugScen("uspace", l, "TI")
+				s2.MinVer = attrSpec{State: aStr, Val: nm}
+				exec(s2, nil)
+			}()
 		}
 	}
 
